@@ -501,6 +501,10 @@ class ExprMixin:
             if self.fork(T.haskey_top(v.term, k)):
                 return Sym("val", T.get(v.term, k))
             self.do_raise(self.make_builtin_exc("KeyError", [i]))
+        if isinstance(v, Obj) and v.cls is not None:
+            owner, m = self.repo.find_method(v.cls, "__getitem__")
+            if m is not None:
+                return self.call_pyfunc(PyFunc(m, owner.module, owner=owner), [v, i], {})
         raise Unsupported(f"subscript of {v!r}")
 
     def e_Starred(self, node, env):
@@ -548,6 +552,9 @@ class ExprMixin:
             if r is not Ellipsis:
                 return r
             if name == "__class__":
+                if v.cls.name == "_DatasetClassMixin":
+                    # the receiver is an instance of SOME dataset class: its class is an (abstract) instance of the metaclass
+                    return Sym("ev", z3.Function("clsof", T.Ev, T.Ev)(v.term), self.repo.find_class("_DatasetClassMeta"))
                 return ClassRef(v.cls)
             if name == "__dict__":
                 d = PyDict()
